@@ -1,6 +1,6 @@
 #!/bin/bash
 # usage: run_seeded.sh <seeded-dir> [tier] [extra check args]  – applies the patch to /repo, runs the property's check, reverts.
-d=$1; tier=${2:-quick}; shift; shift
+d=$(realpath $1); tier=${2:-quick}; shift; shift
 prop=$(python3 -c "import json;print(json.load(open('$d/meta.json'))['property'])")
 cd /repo || exit 2
 if [ -n "$(git status --porcelain)" ]; then echo "repo dirty"; exit 2; fi
